@@ -541,7 +541,7 @@ func judge(r *vk.Run, model *sm.Model, init sm.State, g *rig, key string, replay
 // stress
 
 func stress(r *vk.Run) {
-	n := r.Pick(2000, 100000)
+	n := r.Pick(2000, 600000)
 	sched := vk.NewSched()
 	defer sched.Close()
 	for i := 0; i < n; i++ {
@@ -681,7 +681,7 @@ func stress(r *vk.Run) {
 // conservation of increments
 
 func counters(r *vk.Run) {
-	n := r.Pick(300, 10000)
+	n := r.Pick(300, 60000)
 	sched := vk.NewSched()
 	defer sched.Close()
 	for i := 0; i < n; i++ {
